@@ -1,10 +1,118 @@
 import TempestVerif.Drv.Util
-/- line-protocol handlers of property C18 (stub: no commands yet) -/
+import TempestVerif.Model.ConfigSpec
+import TempestVerif.Gen.Validate
+import TempestVerif.Gen.Ctor
+/-
+  line-protocol handlers of property C18
+
+    cfg.construct <field>=<value> …   outcome of `Sampler(...)`       (options not given take `Gen.Validate.defaults`)
+    cfg.eval      <field>=<value> …   outcome of `SamplerConfig(...)` (same defaults; no FunctionWrapper, no wiring)
+
+  value syntax:  i:<int>  f:<p/q>|f:inf|f:-inf|f:nan  b:0|b:1  s:<alnum*>  n (None)  c (callable)  p (Path)  o (object())
+                 l:<elem>,<elem>,…   (elements in the same syntax; `L` = the nested list [0]; `l:` = [])
+  answers:       accept np=<v> ns=<v> nms=<v> od=<v> ol=<v> [mi=<v> mp=<v> th=<f>]   (stored defaults; clusterer wiring)
+                 reject:<tag>|<tag>…        (message templates of the rules that fired, in order)
+                 raise:<ExceptionName>
+-/
 namespace Drv.C18
-open Drv
+open Drv Model.ConfigSpec
+
+def fields : List (String × Field) :=
+  [("prior_transform", .prior_transform), ("log_likelihood", .log_likelihood), ("n_dim", .n_dim), ("n_particles", .n_particles),
+   ("ess_ratio", .ess_ratio), ("volume_variation", .volume_variation), ("log_likelihood_args", .log_likelihood_args),
+   ("log_likelihood_kwargs", .log_likelihood_kwargs), ("vectorize", .vectorize), ("blobs_dtype", .blobs_dtype),
+   ("periodic", .periodic), ("reflective", .reflective), ("pool", .pool), ("clustering", .clustering), ("normalize", .normalize),
+   ("cluster_every", .cluster_every), ("split_threshold", .split_threshold), ("n_max_clusters", .n_max_clusters),
+   ("sample", .sample), ("n_steps", .n_steps), ("n_max_steps", .n_max_steps), ("resample", .resample),
+   ("output_dir", .output_dir), ("output_label", .output_label), ("random_state", .random_state)]
+
+def parseFV? (s : String) : Option FV :=
+  if s == "inf" then some (.inf false)
+  else if s == "-inf" then some (.inf true)
+  else if s == "nan" then some .nan
+  else (parseRat? s).map FV.fin
+
+def parseScalar? (s : String) : Option V :=
+  if s == "n" then some .none
+  else if s == "c" then some .callable
+  else if s == "p" then some .path
+  else if s == "o" then some .other
+  else if s == "L" then some (.list [.int 0])
+  else if s.startsWith "i:" then (parseInt? (s.drop 2).toString).map V.int
+  else if s.startsWith "f:" then (parseFV? (s.drop 2).toString).map V.float
+  else if s == "b:0" then some (.bool false)
+  else if s == "b:1" then some (.bool true)
+  else if s.startsWith "s:" then
+    let t := (s.drop 2).toString
+    if t.all (fun ch => ch.isAlphanum || ch == '_') then some (.str t) else none
+  else none
+
+def parseV? (s : String) : Option V :=
+  if s.startsWith "l:" then
+    let t := (s.drop 2).toString
+    if t.isEmpty then some (.list []) else ((t.splitOn ",").mapM parseScalar?).map V.list
+  else parseScalar? s
+
+def showFV : FV → String
+  | .fin q => showRat q
+  | .inf false => "inf"
+  | .inf true => "-inf"
+  | .nan => "nan"
+
+def showScalar : V → String
+  | .int n => s!"i:{n}"
+  | .float f => "f:" ++ showFV f
+  | .bool b => if b then "b:1" else "b:0"
+  | .str s => "s:" ++ s
+  | .none => "n"
+  | .callable => "c"
+  | .path => "p"
+  | .other => "o"
+  | .list _ => "L"
+
+def showV : V → String
+  | .list l => "l:" ++ ",".intercalate (l.map showScalar)
+  | v => showScalar v
+
+/-- the configuration named by the arguments; `none` when a token is malformed or a required option is missing -/
+def parseCfg? (args : List (String × String)) : Option Cfg := do
+  let base : Cfg := fun f => match Gen.Validate.defaults.find? (·.1 == f) with
+    | some (_, v) => v
+    | none => V.none
+  let mut c := base
+  for (k, v) in args do
+    let f ← (fields.find? (·.1 == k)).map (·.2)
+    let x ← parseV? v
+    c := c.set f x
+  -- options without a default must be given explicitly
+  let required := fields.filter fun (_, f) => !(Gen.Validate.defaults.any (·.1 == f))
+  if required.all (fun (k, _) => args.any (·.1 == k)) then some c else none
+
+def showOutcome : Outcome → String
+  | .accept => "accept"
+  | .reject tags => "reject:" ++ "|".intercalate tags
+  | .raise k => "raise:" ++ k.name
+
+def showStored (c : Cfg) : String :=
+  s!"np={showV (c .n_particles)} ns={showV (c .n_steps)} nms={showV (c .n_max_steps)} od={showV (c .output_dir)} ol={showV (c .output_label)}"
 
 def handle (cmd : String) (args : List (String × String)) : Option String :=
   match cmd with
+  | "cfg.eval" =>
+    (parseCfg? args).map fun c =>
+      match runCfg Gen.Validate.spec c with
+      | .ok c' => "accept " ++ showStored c'
+      | .error o => showOutcome o
+  | "cfg.construct" =>
+    (parseCfg? args).map fun c =>
+      match runCfg Gen.Validate.spec (wrapFields Gen.Validate.wrapped c) with
+      | .error o => showOutcome o
+      | .ok c' =>
+        match wire Gen.Ctor.wiring c' with
+        | .error k => showOutcome (.raise k)
+        | .ok w =>
+          "accept " ++ showStored c' ++
+            (if w.clusterer then s!" mi={showV w.maxIter} mp={showV w.minPoints} th={showFV w.threshold}" else " mi=- mp=- th=-")
   | _ => none
 
 end Drv.C18
